@@ -472,6 +472,13 @@ func (s *Sim) Call(ctx context.Context, call *scheduler.Call) (mesos.Response, e
 		s.record(CallRecord{Type: "ACKNOWLEDGE", Kill: call.GetAcknowledge().TaskID.Value, FwID: fw})
 	case scheduler.Call_RECONCILE:
 		s.record(CallRecord{Type: "RECONCILE", FwID: fw})
+		if mode := takeReconcileFault(); mode != "" { // lostreconcile.go
+			go s.lossyReconcile(fw, mode)
+			if mode == "fail" {
+				return nil, errReconcileFailed
+			}
+			return emptyResp{}, nil
+		}
 		go s.reconcile(fw)
 	default:
 		s.record(CallRecord{Type: call.GetType().String(), FwID: fw})
